@@ -160,13 +160,13 @@ def run(ctx):
         lo = make_line_oracle()
         core.diff_component(ctx, "reqres", ["gen", "--exhaustive", 3 if quick else 4], classify, label="reqres.exhaustive", shrink=False, line_oracle=lo)
         shrink = False       # classes that are known findings are not worth shrinking; new ones are shrunk below
-        core.diff_component(ctx, "reqres", ["gen", "--seed", ctx.seed, "--cases", 1200 if quick else 12000, "--len", 80 if quick else 120],
+        core.diff_component(ctx, "reqres", ["gen", "--seed", ctx.seed, "--cases", 1200 if quick else 6000, "--len", 80 if quick else 120],
                             classify, label="reqres.random", line_oracle=lo, shrink=shrink)
         core.diff_component(ctx, "reqres", ["gen", "--seed", ctx.seed + 7, "--cases", 500 if quick else 6000, "--len", 120 if quick else 200, "sat"],
                             classify, label="reqres.saturation", line_oracle=lo, shrink=shrink)
-        core.diff_component(ctx, "reqres", ["gen", "--seed", ctx.seed + 11, "--cases", 800 if quick else 10000, "--len", 100 if quick else 140, "churn"],
+        core.diff_component(ctx, "reqres", ["gen", "--seed", ctx.seed + 11, "--cases", 800 if quick else 4000, "--len", 100 if quick else 140, "churn"],
                             classify, label="reqres.churn", line_oracle=lo, shrink=shrink)
-        core.diff_component(ctx, "reqres", ["gen", "--seed", ctx.seed + 13, "--cases", 100 if quick else 600, "--len", 60 if quick else 100, "ipc"],
+        core.diff_component(ctx, "reqres", ["gen", "--seed", ctx.seed + 13, "--cases", 100 if quick else 400, "--len", 60 if quick else 100, "ipc"],
                             classify, label="reqres.ipc", line_oracle=lo, shrink=shrink)
         shrink_new(ctx)
         replay_known(ctx, "cross-client-routing", CEX_ROUTING, 10, "response delivered to a request of another client",
